@@ -27,8 +27,19 @@ Fixpoint remove_last (p : bytes) (t : ktab) : ktab :=           (* the topmost m
   | [] => []
   | x :: r => if beq x p && negb (mem_path p r) then r else x :: remove_last p r
   end.
+(* a mountpoint is hidden when, after its last line, something was mounted on one of its ancestor
+   directories (Model/Kernel.v: hidden_at, the same rule on mountpoints only): umount(2) of the
+   path fails until that cover is gone.  E.g. a second overlay mounted on a build root (known
+   finding 1: two stacked mounts) covers the imports mounted inside the first. *)
+Definition hidden_abs (t : ktab) (p : bytes) : bool :=
+  fold_left (fun h q => if beq q p then false else if under q p then true else h) t false.
 Definition kumount_abs (t : ktab) (p : bytes) : option ktab :=
-  if mem_path p t && negb (existsb (fun q => under p q) t) then Some (remove_last p t) else None.
+  if mem_path p t && negb (hidden_abs t p || existsb (fun q => under p q) t) then Some (remove_last p t) else None.
+
+(* no line of the table has a LATER line mounted on one of its ancestor directories: no mountpoint
+   is hidden or can become hidden by unmounting what is stacked on it *)
+Fixpoint ncov (k : ktab) : bool :=
+  match k with [] => true | p :: r => forallb (fun q => negb (under q p)) r && ncov r end.
 
 Definition at_or_below (d q : bytes) : bool := beq q d || under d q.
 
@@ -137,7 +148,11 @@ Fixpoint umount_seq (k : ktab) (l : list bytes) : ktab :=
               | None => k
               end
   end.
-(* every mountpoint of the table (umount -all over layers that cover the table) *)
+(* every mountpoint of the table (umount -all over layers that cover the table).  The real command
+   goes layer by layer; as long as no call fails that is the same set of calls.  With a covered
+   line ([ncov k] false) a call fails, and WHERE the command stops depends on the order of the
+   layers, which this machine does not have: the correspondence (Cases/C20.v: later_corr) holds
+   the code to [later_umount_all] on tables without covered lines only. *)
 Definition later_umount_all (k : ktab) : ktab := umount_seq k (rev (Lex.sort k)).
 (* one layer: the mount lines at or below its build directory *)
 Definition later_umount_layer (bld : bytes) (k : ktab) : ktab :=
